@@ -123,6 +123,11 @@ def pool(algo):
     # mergetag texts (signed tags of C2 / C1)
     P["MT_PGP"] = ref.serialize_tag(ref.tag(P["C2"], b"commit", b"signed-1", A0, b"release 1\n", PGP_SIG + b"\n"))
     P["MT_SSH"] = ref.serialize_tag(ref.tag(P["C1"], b"commit", b"signed-2", A0, b"release 2\n\ndetails\n", SSH_SIG + b"\n"))
+    # mergetags whose tag text ends in two or more LFs (empty message; message ending in a blank line; blank line
+    # after the signature): their continuation lines at the end of the header value are " \n"
+    P["MT_EMPTYMSG"] = ref.serialize_tag(ref.tag(P["C2"], b"commit", b"empty-msg", A0, b""))
+    P["MT_BLANKEND"] = ref.serialize_tag(ref.tag(P["C1"], b"commit", b"blank-end", A0, b"release 3\n\n"))
+    P["MT_SIGBLANK"] = ref.serialize_tag(ref.tag(P["C2"], b"commit", b"sig-blank", A0, b"release 4\n", PGP_SIG + b"\n\n"))
     _POOL[algo] = P
     return P
 
@@ -1311,8 +1316,9 @@ def gen_commits(algo, quick):
                             if out(c):
                                 yield c
     # parents x mergetag
+    mts_tail = mts + [(P["MT_EMPTYMSG"],), (P["MT_BLANKEND"],), (P["MT_SIGBLANK"],), (P["MT_BLANKEND"], P["MT_EMPTYMSG"])]
     for pa in par:
-        for mt in mts:
+        for mt in mts_tail:
             for msg in (b"m\n", None):
                 c = _with(base, parents=pa, mergetags=mt, message=msg)
                 if out(c):
